@@ -3,6 +3,7 @@ import Thanos.Model.Rules
 import Thanos.Model.Memcached
 import Thanos.Model.AlertQueue
 import Thanos.Model.Reloader
+import Thanos.Model.Rewrite
 /-
   Line-protocol driver of the `misc` family (C45 C46 C47 C48 C49).
   One request per line, one answer per line; every line is self-contained.
@@ -55,6 +56,15 @@ import Thanos.Model.Reloader
       env    = hexname=hexvalue{,…} | -    script = a word of 1/0: answers of the reload endpoint, in order
       answer = res;outs      res = ok<requests> | err:missing | err:gzip | err:env:<hexname>
       outs   = path=hexcontent{,…} sorted by path | -     path = out | <dir index>/<hexname>
+
+  C48
+    rw.block <series> <requests>                        -> <series> | -        (the rewritten block; through real blocks)
+    rw.mod   <series> <requests>                        -> <series> | -        (the same through the in-memory series set)
+      series   = s{|s} | -          s = labels/chunk{/chunk}     labels = hexname=hexvalue{+…} | -
+      chunk    = t.v{,t.v}          (integers; t increasing)
+      requests = r{;r} | -          r = matchers/intervals
+      matchers = m{,m} | e          m as in C45 (hexname:typ:hexvalue:tbl)
+      intervals = a~b{,a~b} | -     (- = delete the whole series)
 -/
 open Thanos Thanos.Parse
 
@@ -336,7 +346,59 @@ def runSteps (c : Conf) : St → List Snap → List String
 
 end RL
 
+/-! ### C48 -/
+
+namespace RW
+open Thanos.Rewrite
+
+def parseLSet (s : String) : Option LSet :=
+  (listOf '+' s).mapM fun t =>
+    match splitChar '=' t with
+    | [n, v] => do pure ((← hexString? n), (← hexString? v))
+    | _ => none
+
+def parseChunk (s : String) : Option Chunk :=
+  (listOf ',' s).mapM fun t =>
+    match splitChar '.' t with
+    | [a, b] => do pure ((← parseInt? a), (← parseInt? b))
+    | _ => none
+
+def parseSeries (s : String) : Option Series :=
+  match splitChar '/' s with
+  | l :: cs => do pure { labels := ← parseLSet l, chunks := ← cs.mapM parseChunk }
+  | _ => none
+
+def parseInterval (s : String) : Option Interval :=
+  match splitChar '~' s with
+  | [a, b] => do pure ⟨← parseInt? a, ← parseInt? b⟩
+  | _ => none
+
+def parseRequest (s : String) : Option Request :=
+  match splitChar '/' s with
+  | [ms, ivs] => do
+    let ms ← if ms = "e" then some [] else (listOf ',' ms).mapM parseMatcher
+    let ivs ← (listOf ',' ivs).mapM parseInterval
+    pure { matchers := ms.map (fun m => ⟨m.name, m.pred⟩), intervals := ivs }
+  | _ => none
+
+def showSeries (s : Series) : String :=
+  let l := joinWith "+" (s.labels.map fun p => hexS p.1 ++ "=" ++ hexS p.2)
+  "/".intercalate (l :: s.chunks.map fun c => joinWith "," (c.map fun x => s!"{x.1}.{x.2}"))
+
+/-- does the chunk iterator skip a chunk emptied by several intervals (tied by the regenerated
+    fact `rewriteEmptyChunkAction`, obligation `C48_empty_chunk_fact`) -/
+def rwSkipEmpty : Bool := true
+
+def run (series reqs : String) : String :=
+  match (listOf '|' series).mapM parseSeries, (listOf ';' reqs).mapM parseRequest with
+  | some b, some rs => joinWith "|" ((Rewrite.rewriteCode rwSkipEmpty rs b).map showSeries)
+  | _, _ => "bad-op"
+
+end RW
+
 def handle : List String → String
+  | ["rw.block", series, reqs] => RW.run series reqs
+  | ["rw.mod", series, reqs] => RW.run series reqs
   | ["rl.expand", tol, env, text] =>
     match RL.parseEnv env, hexString? text with
     | some env, some t =>
